@@ -21,7 +21,7 @@ NA = {
  "C15": "pure function of a directory's contents; the statement has no fault, crash or history clause",
  "C17": "pure function of one fitted curve",
 }
-PENDING = {"C10": "4.4", "C12": "4.5", "C16": "4.6", "C18": "4.7",
+PENDING = {"C12": "4.5", "C16": "4.6", "C18": "4.7",
            "C19": "4.8", "C20": "4.9"}
 
 CHECKS = {
@@ -34,6 +34,9 @@ CHECKS = {
  "C09": dict(engine="curve-sim", cat="exploration", ref="DESIGN.md 4.3",
    text="seeded histories mixing preprocessing, fits (successful, unsuccessful, aborted by injected faults), setting edits and rate_quality over all regressors, five training-set forms, feature subsets and LDA flags; totality, value == standalone rater on a freshly rebuilt curve, 'none' -> -1, range for the averaging tree regressors, one-directional cache rule via the get_rater seam, repeat-call identity, and re-execution of sampled runs in a fresh interpreter under another PYTHONHASHSEED.",
    note="standalone rater and the rater requested through the seam are memoised per configuration (deterministic construction); domain = configurations for which the standalone rater builds"),
+ "C10": dict(engine="curve-sim", cat="exploration", ref="DESIGN.md 4.4",
+   text="twin-world simulation: one seeded op list of hold / pass / edit-in-place / pass-again scenarios over every mutable argument kind (parameter sets, step lists, option and method dictionaries, ranges, feature-name lists, force and sample arrays; with gcf_k, multi-pass ranges and plateau search) is executed by an aliasing caller and by a by-value caller; outcomes and full curve observations must be identical after every library call, and every argument must be unchanged by the call.",
+   note="held objects = created-and-passed objects and return values of get_initial_fit_parameters(); reads of public attributes / fit_properties items are not 'returned objects'"),
 }
 
 
